@@ -363,6 +363,8 @@ func C11() int {
 	}
 	// key-file API round trip
 	c11API(s, c)
+	// runs that fail part-way through processing, after ciphertext has been written
+	c11FailingRuns(s, c, validKey)
 	c.Set("race_reports", s.RaceReports())
 	if c.Counter("runs") < len(jobs) {
 		c.Inconclusive("not every state × sequence was run")
@@ -438,4 +440,107 @@ func c11API(s *sut.SUT, c *ev.Check) {
 		}
 	}
 	c.Count("api_roundtrips", 1)
+}
+
+// c11FailingRuns: a run that stores a fresh key (or uses an existing one), writes some ciphertext
+// and then fails on a later line (over-long line, gzip stream that ends early, missing input) must
+// leave the key file in place: whatever ciphertext is in the output is decryptable with the file
+// at the key path, and an existing key file stays byte-for-byte untouched.
+func c11FailingRuns(s *sut.SUT, c *ev.Check, validKey string) {
+	type fk struct {
+		name string
+		mk   func(dir string) string // returns the input path
+	}
+	secret := func(i int) string { return fmt.Sprintf("zqC11F%dsecret", i) }
+	good := func(n int) string {
+		var b strings.Builder
+		for i := 0; i < n; i++ {
+			b.WriteString(c11Line(secret(i), i))
+			b.WriteByte('\n')
+		}
+		return b.String()
+	}
+	kinds := []fk{
+		{"over-long line after 3 lines", func(dir string) string {
+			p := filepath.Join(dir, "in.log")
+			os.WriteFile(p, []byte(good(3)+c11Line(strings.Repeat("L", 70000), 3)+"\n"+c11Line("after", 4)+"\n"), 0o644)
+			return p
+		}},
+		{"over-long line after 900 lines", func(dir string) string {
+			p := filepath.Join(dir, "in.log")
+			os.WriteFile(p, []byte(good(900)+c11Line(strings.Repeat("L", 70000), 3)+"\n"), 0o644)
+			return p
+		}},
+		{"gzip input cut in the middle", func(dir string) string {
+			p := filepath.Join(dir, "in.log.gz")
+			z := gz([]byte(good(2000)))
+			os.WriteFile(p, z[:len(z)/2], 0o644)
+			return p
+		}},
+		{"input file missing", func(dir string) string { return filepath.Join(dir, "no-such-input.log") }},
+	}
+	type job struct {
+		k     fk
+		state string
+	}
+	var jobs []job
+	for _, k := range kinds {
+		for _, st := range []string{"absent", "valid"} {
+			jobs = append(jobs, job{k, st})
+		}
+	}
+	parallelDo(len(jobs), func(ji int) {
+		jb := jobs[ji]
+		dir := s.TempDir("c11f")
+		defer os.RemoveAll(dir)
+		kp := filepath.Join(dir, "enc.key")
+		if jb.state == "valid" {
+			os.WriteFile(kp, []byte(validKey), 0o600)
+		}
+		before := c11Take(kp)
+		in := jb.k.mk(dir)
+		outp := filepath.Join(dir, "out.log")
+		r := s.CLI(sut.Run{Args: []string{"redact", "--encrypt", "-q", kp, "-o", outp, in}, Dir: dir})
+		if r.TimedOut {
+			c.Inconclusive("watchdog")
+			return
+		}
+		after := c11Take(kp)
+		out, _ := os.ReadFile(outp)
+		ols := splitLines(out)
+		label := fmt.Sprintf("key %s, %s", jb.state, jb.k.name)
+		c.Count("failing_runs", 1)
+		c.Eval("failing|" + label)
+		viol := func(kind, what string) {
+			c.Violation(kind+"|failing-run|"+jb.state, fmt.Sprintf("%s: %s (exit %d, %d output lines, stderr: %s)", label, what, r.Exit, len(ols), short(bytes.TrimSpace(r.Stderr), 160)),
+				map[string]any{"state": jb.state, "failing_run": jb.k.name})
+		}
+		if r.Exit == 0 {
+			c.Count("failing_runs_that_exit_0(C07/C08)", 1)
+		}
+		if jb.state == "valid" && !after.same(before) {
+			viol("key-file-touched", "the existing valid key file changed")
+			return
+		}
+		if len(ols) == 0 {
+			return // no ciphertext was written; whether a key file was stored is not judged
+		}
+		c.Count("failing_runs_with_ciphertext_in_the_output", 1)
+		if _, okk := c11KeyOf(after.bytes); after.kind != "file" || !okk {
+			viol("ciphertext-without-stored-key", fmt.Sprintf("the output holds %d lines of ciphertext but the key path now holds %s (%d bytes)", len(ols), after.kind, len(after.bytes)))
+			return
+		}
+		t, err := jt.ParseObject(ols[0])
+		if err != nil {
+			return
+		}
+		leaf := t.Get("attr").Get("command").Get("filter").Get("name")
+		if leaf == nil || leaf.K != jt.Str {
+			return
+		}
+		raw, has, dr := decryptCLI(s, dir, kp, leaf.S)
+		if dr.Exit != 0 || !has || raw != secret(0) {
+			viol("output-not-decryptable-with-key-file", fmt.Sprintf("the first emitted value does not decrypt to the planted secret with the file at the key path (decrypt exit %d, printed %q)", dr.Exit, trunc(raw, 40)))
+		}
+	})
 }
